@@ -510,8 +510,10 @@ func (e *Engine) instrWrites(f *ssa.Function, ins ssa.Instruction, ws *WriteSet,
 		ws.addKey("alloc", nil)
 		ws.addKey(mapKey(i.Type()), i)
 		ws.addKey(mapDomKey(i.Type()), i)
-	case *ssa.Next, *ssa.Range:
-		ws.addKey("it:"+ins.(ssa.Value).Name(), nil)
+	case *ssa.Range:
+		ws.addKey("it:"+i.Name(), nil)
+	case *ssa.Next:
+		ws.addKey("it:"+i.Iter.Name(), nil)
 	case ssa.CallInstruction:
 		e.callWrites(f, i, ws, visiting)
 	}
